@@ -913,3 +913,39 @@ def deref_operand(fl, op):
     return cur
 
 
+
+
+
+# ---------------------------------------------------------------- what a closure parameter receives
+def closure_actuals(F, cbody, k):
+    """[(body, operand)] the k-th argument (1-based, not counting the environment) of closure `cbody` can receive, when the
+    closure literal is handed to a crate-local function that calls it: the literal's creation site is found in the parent,
+    the parameter of the callee it is passed for, and the `Fn::call*` sites on that parameter inside the callee.
+    None when the closure escapes in a way this does not follow."""
+    parent = F.body(cbody.parent) if cbody.parent else None
+    if parent is None:
+        return None
+    pfl = flow_of(parent)
+    out = []
+    found = False
+    for bb, t in pfl.calls(lambda c: True):
+        c = callee(t)
+        for ai, a in enumerate(t['args']):
+            if a['k'] == 'const':
+                continue
+            if not any(o.kind == 'agg' and o.key == cbody.path for o in pfl.origins(a)):
+                continue
+            found = True
+            g = F.body(callee_resolved(t) or c) or F.body(c)
+            if g is None:
+                return None         # handed to code we do not see (std adaptors are handled by the normalisation passes)
+            for gb in F.nested(g.path):
+                gfl = flow_of(gb)
+                for cb, ct in gfl.calls(lambda c2: c2 in ('std::ops::Fn::call', 'std::ops::FnMut::call_mut', 'std::ops::FnOnce::call_once')):
+                    ro = [o for o in gfl.origins(ct['args'][0]) if o.kind != 'comb']
+                    if gb.path == g.path and ro and all(o.kind == 'param' and o.key == ai + 1 for o in ro):
+                        tup = ct['args'][1]
+                        if tup['k'] == 'const' or tup['p']['proj']:
+                            return None
+                        out.append((gb, {'k': 'copy', 'p': {'l': tup['p']['l'], 'proj': [{'f': k - 1, 'name': '', 'ty': ''}]}}))
+    return out if found and out else None
